@@ -657,35 +657,16 @@ func (e *Engine) next(it *iter) Val {
 
 func (e *Engine) slice(ci *cInstr, fr *frame) Val {
 	x := e.get(fr, &ci.ops[0])
-	getI := func(k int, def int) int {
-		if ci.ops[k].kind == opNone {
-			return def
-		}
-		return e.concreteInt(e.get(fr, &ci.ops[k]).(Sc), "slice bound")
-	}
-	fail := func(lo, hi, c int) {
-		panic(&goPanic{msg: fmt.Sprintf("runtime error: slice bounds out of range [%d:%d] with capacity %d", lo, hi, c)})
-	}
+	var length, capacity int
 	switch xv := x.(type) {
-	case Str, SStr:
-		bs := bytesOf(xv)
-		lo, hi := getI(1, 0), getI(2, len(bs))
-		if lo < 0 || hi > len(bs) || lo > hi {
-			fail(lo, hi, len(bs))
-		}
-		return mkStr(bs[lo:hi:hi])
+	case Str:
+		length, capacity = len(xv), len(xv)
+	case SStr:
+		length, capacity = len(xv), len(xv)
 	case SAtom, SCat:
 		e.unsupported("slice of formatted string")
 	case Sl:
-		lo, hi := getI(1, 0), getI(2, len(xv.a))
-		mx := getI(3, cap(xv.a))
-		if lo < 0 || hi > cap(xv.a) || lo > hi || mx > cap(xv.a) || hi > mx {
-			fail(lo, hi, cap(xv.a))
-		}
-		if xv.a == nil {
-			return Sl{}
-		}
-		return Sl{a: xv.a[lo:hi:mx]}
+		length, capacity = len(xv.a), cap(xv.a)
 	case *Val:
 		if xv == nil {
 			panic(&goPanic{msg: "runtime error: invalid memory address or nil pointer dereference"})
@@ -694,14 +675,44 @@ func (e *Engine) slice(ci *cInstr, fr *frame) Val {
 		if !ok {
 			e.unsupported("slice of pointer to %T", *xv)
 		}
-		lo, hi := getI(1, 0), getI(2, len(st))
-		mx := getI(3, len(st))
-		if lo < 0 || hi > len(st) || lo > hi || mx > len(st) || hi > mx {
-			fail(lo, hi, len(st))
-		}
-		return Sl{a: []Val(st)[lo:hi:mx]}
+		length, capacity = len(st), len(st)
+	default:
+		e.unsupported("slice of %T", x)
 	}
-	e.unsupported("slice of %T", x)
+	// operands: low (default 0), high (default len), max (default cap)
+	bound := func(k int, def int) Sc {
+		if ci.ops[k].kind == opNone {
+			return isc(int64(def))
+		}
+		return e.get(fr, &ci.ops[k]).(Sc)
+	}
+	lo, hi, mx := bound(1, 0), bound(2, length), bound(3, capacity)
+	if lo.t != nil || hi.t != nil || mx.t != nil {
+		// decide the bounds check symbolically first: 0 <= lo <= hi <= max <= cap
+		ti := tinfo{w: 64, signed: true}
+		ok := e.andSc(e.intOp(token.GEQ, ti, ti, lo, isc(0)), e.intOp(token.LEQ, ti, ti, lo, hi))
+		ok = e.andSc(ok, e.andSc(e.intOp(token.LEQ, ti, ti, hi, mx), e.intOp(token.LEQ, ti, ti, mx, isc(int64(capacity)))))
+		if !e.decide(ok) {
+			panic(&goPanic{msg: fmt.Sprintf("runtime error: slice bounds out of range (symbolic bounds) with capacity %d", capacity)})
+		}
+	}
+	l, h, m := e.concreteInt(lo, "slice low"), e.concreteInt(hi, "slice high"), e.concreteInt(mx, "slice max")
+	if l < 0 || h > capacity || l > h || m > capacity || h > m {
+		panic(&goPanic{msg: fmt.Sprintf("runtime error: slice bounds out of range [%d:%d] with capacity %d", l, h, capacity)})
+	}
+	switch xv := x.(type) {
+	case Str, SStr:
+		bs := bytesOf(xv)
+		return mkStr(bs[l:h:h])
+	case Sl:
+		if xv.a == nil {
+			return Sl{}
+		}
+		return Sl{a: xv.a[l:h:m]}
+	case *Val:
+		st := (*xv).(St)
+		return Sl{a: []Val(st)[l:h:m]}
+	}
 	return nil
 }
 
